@@ -29,9 +29,10 @@ THEOREMS = [
     "SyneTune.C06.no_repeat",
     "SyneTune.C06.no_repeat_failed",
     "SyneTune.C06.no_repeat_bo",
-    "SyneTune.C06.no_repeat_negzero_counterexample",
+    "SyneTune.C06.pyeq_same_match_string",
     "SyneTune.C06.grid_once",
     "SyneTune.C06.grid_points_nodup",
+    "SyneTune.C06.grid_values_nodup",
     "SyneTune.C06.shuffle_is_permutation",
     "SyneTune.C06.none_random_partial",
     "SyneTune.C06.none_only_if_exhausted_counterexample",
